@@ -200,6 +200,14 @@ func descrCases(r *hx.Rand, n int) {
 	}
 }
 
+func narrowRamp(n int) []float64 {
+	xs := make([]float64, n)
+	for i := range xs {
+		xs[i] = 1e15 + math.Round(0.2*float64(i))*0.125
+	}
+	return xs
+}
+
 // descrCorpus: fixed cases (the package's own test vectors and classic hard inputs).
 func descrCorpus() {
 	if shard != 0 {
@@ -212,6 +220,7 @@ func descrCorpus() {
 		{1e9 + 4, 1e9 + 7, 1e9 + 13, 1e9 + 16}, // textbook cancellation example
 		{0.1, 0.2, 0.3, 0.4, 0.5, 0.6, 0.7, 0.8, 0.9, 1.0},
 		{3, 3, 3, 3}, {-1, 1}, {0, 0, 1},
+		narrowRamp(600), // N12b witness: 120 ulps wide, ascending; Mean returns the minimum
 	} {
 		descrOne(append([]float64(nil), xs...), false, ps, "corpus+"+strings.ToLower(sizeClass(len(xs))))
 	}
